@@ -792,15 +792,21 @@ def shooting_residual(hy, vw, x):
     return hy.solveHydroShock(vw, x, T) / hy.Tnucl - 1.0
 
 
-def clean_guess(eos, vw, vp):
+def clean_guess(eos, vw, vp, template_vMin=0.0):
     """The initial guess [T+, T-] that the UNCHANGED matchDeflagOrHyb builds for a prescribed
     v+ (template-model estimate, hydrodynamics.py:414-452 and matchDeflagOrHybInitial),
-    recomputed by the harness from the spec's EOS alone.  Only for alpha_n < 1/3 (the template
-    model then has vMin = 0 and the template branch is taken for every vw); None otherwise."""
+    recomputed by the harness from the spec's EOS alone.  For alpha_n < 1/3 the template model
+    has vMin = 0 and the template branch is taken for every vw."""
     Tn = eos.Tnucl
     alN = eos.alN()
     if not alN < 1.0 / 3:
-        return None
+        # the template model then has a minimal velocity of its own (a shooting root): only the
+        # THRESHOLD of the branch is taken from the solver's template object, the estimate
+        # itself is recomputed here
+        if template_vMin is None:
+            return None
+        if not vw > template_vMin:
+            return [Tn, 0.99 * Tn]
     cb2, cs2 = float(eos.csqLowT(Tn)), float(eos.csqHighT(Tn))
     psiN = float(eos.wLowT(Tn)) / float(eos.wHighT(Tn))
     m_, n_ = 1 + 1 / cs2, 1 + 1 / cb2
@@ -852,6 +858,46 @@ class GuessSpy:
         return False
 
 
+def code_final_bracket(hy, vw, vp):
+    """The final bracket of the code's own brentq run on shockTnuclDiff, from the evaluations
+    it made (findMatching is re-run with root_scalar wrapped; deterministic): the two
+    evaluation points of opposite sign closest to each other, as ((xa, fa/Tn), (xb, fb/Tn)),
+    if they are no further apart than brentq's stopping width 4(rtol v+ + atol) and the
+    returned v+ is one of them; else None"""
+    import WallGo.hydrodynamics as H
+    evals = []
+    orig = H.root_scalar
+
+    def rs(f, *a, **k):
+        if getattr(f, "__name__", "") != "shockTnuclDiff":
+            return orig(f, *a, **k)
+        del evals[:]
+
+        def g(x):
+            y = f(x)
+            evals.append((float(x), float(y) / hy.Tnucl))
+            return y
+        return orig(g, *a, **k)
+    H.root_scalar = rs
+    try:
+        res = hy.findMatching(vw)
+    except Exception:
+        return None
+    finally:
+        H.root_scalar = orig
+    if res[0] is None or abs(res[0] - vp) > 1e-15:
+        return None
+    neg = [e for e in evals if e[1] < 0]
+    pos = [e for e in evals if e[1] > 0]
+    if not neg or not pos:
+        return None
+    a, b = min(((p, q) for p in neg for q in pos), key=lambda pq: abs(pq[0][0] - pq[1][0]))
+    if abs(a[0] - b[0]) > 4 * (hy.rtol * vp + hy.atol) or min(abs(a[0] - vp),
+                                                              abs(b[0] - vp)) > 1e-15:
+        return None
+    return a, b
+
+
 def root_on_jump(hy, vw, vp, miss, eos):
     """Class rule of the registered finding CLASS_JUMP, measured on the live object.  The
     recorded mechanism: the inner 2x2 hybr solve, STARTED FROM THE UNCHANGED CODE'S OWN
@@ -859,7 +905,10 @@ def root_on_jump(hy, vw, vp, miss, eos):
     shockTnuclDiff has a jump and brentq converges onto it.  All of:
       (b) the shooting residual rebuilt from the public methods equals the observed miss at
           the returned v+ (the returned matching is the root finder's answer);
-      (c) a JUMP at the resolution of the code's root finder: bisection on the sign of the
+      (c) a JUMP at the resolution of the code's root finder: the final bracket of the code's
+          own brentq run (its two closest evaluations of opposite sign, no wider than
+          4(rtol v+ + atol), one of them the returned v+) differs by >= half the miss -- or,
+          when the discontinuity is wide enough to be probed from outside: bisection on the
           rebuilt residual inside v+(1 +- 1e-4) down to the width 2(rtol v+ + atol) at which
           brentq stops: across that interval the residual still differs by >= half the miss;
       (d) at v+ and on both sides of the jump the inner solve was started from the guess the
@@ -879,6 +928,19 @@ def root_on_jump(hy, vw, vp, miss, eos):
         with GuessSpy(hy) as sp2:
             r = shooting_residual(hy, vw, x)
         return r, (sp2.guesses[-1] if sp2.guesses else None)
+    # (c) first from the code's OWN evaluations: the final bracket of its brentq run
+    own = code_final_bracket(hy, vw, vp)
+    if own is not None:
+        (xa, fa), (xb, fb) = own
+        if abs(fa - fb) >= 0.5 * abs(miss):
+            for x in (vp, xa, xb):
+                g = f(x)[1]
+                want = clean_guess(eos, vw, x, hy.template.vMin)
+                if want is None or g is None or any(abs(p_ - q_) > 1e-8 * abs(q_)
+                                                    for p_, q_ in zip(g, want)):
+                    return False, "inner solve not started from the unchanged code's guess " \
+                        "(%r vs %r)" % (g, want)
+            return True, ""
     try:
         lo, hi = vp * (1 - 1e-4), vp * (1 + 1e-4)
         (a, ga), (b, gb) = f(lo), f(hi)
@@ -907,7 +969,7 @@ def root_on_jump(hy, vw, vp, miss, eos):
     if abs(a - b) < 0.5 * abs(miss):
         return False, "sign change resolved by the root finder (no jump at its resolution)"
     for x, g in ((vp, g0), (lo, ga), (hi, gb)):
-        want = clean_guess(eos, vw, x)
+        want = clean_guess(eos, vw, x, hy.template.vMin)
         if want is None or g is None or any(abs(p - q) > 1e-8 * abs(q) for p, q in zip(g, want)):
             return False, "inner solve not started from the unchanged code's guess (%r vs %r)" % (
                 g, want)
@@ -966,6 +1028,8 @@ def check_matching_reaches_Tn(ctx, spec, eos, hy, vw, tag="", edge=False):
         # narrow-window family: a result the code flags itself is a diagnostic
         ctx.count("narrow_window_flagged_by_the_code", case)
         return None
+    if not edge and flagged and gate_lo(hy) != GATE_SLOW and vw < hy.vMin + 3 * MARGIN_VMIN:
+        edge = True        # grid point inside the sliver above a root-found vMin
     if edge and (flagged or vp is None):
         ctx.count("edge_above_vMin", case, bucket="flagged by the code:%.0e" % (vw - hy.vMin))
         EDGE_BAD.append(dict(spec=spec, vw=vw, d=vw - hy.vMin, vp=vp, Tp=Tp,
